@@ -11,7 +11,7 @@ META = dict(
 )
 
 def harnesses(tier):
-    N = 4 if tier == 'quick' else 6
+    N = 4 if tier == 'quick' else 5      # 6 bytes: no verdict within 3000 s (measured)
     hs = []
     for fmt in (5, 6):
         h = esccommon.escape('c14_escape_inverse', fmt, N, tier)
